@@ -57,6 +57,8 @@ func main() {
 		os.Exit(cmdSchemas(os.Args[2:]))
 	case "consts":
 		os.Exit(cmdConsts(os.Args[2:]))
+	case "rejects":
+		os.Exit(cmdRejects(os.Args[2:]))
 	case "selftest":
 		os.Exit(cmdSelftest(os.Args[2:]))
 	default:
